@@ -7,7 +7,7 @@ import userfns
 from core import enc, q, user_fn_spec
 
 SR_POOL = [1, 7, 100, 2.4, 1e3, 12345.678, 1e6, 1e9, 5e10, 30, 250.5]
-NAME_POOL = ["a", "b", "a1b", "x2y", "pulse", "pi2pulse", "x9y9z", "ramp", "wait"]
+NAME_POOL = ["a", "b", "a1b", "x2y", "pulse", "pi2pulse", "x9y9z", "ramp", "wait", "ab", "pulse width", "waituntilgate", "Ramp"]
 USER_FNS = ["const", "lin2", "poly4", "pi2pulse", "x9y"]
 USER_ARITY = {"const": 1, "lin2": 2, "poly4": 4, "pi2pulse": 1, "x9y": 2}
 BUILTIN_ARITY = {"ramp": 2, "sine": 4, "gaussian": 4, "gsc": 4}
@@ -275,7 +275,8 @@ class SeqGen:
         compares the entries with each other, not with the sequence)."""
         r = self.r
         SR = SR if SR is not None else r.choice([1, 10, 100, 1e3, 2.5, 1e6, 1e9])
-        pool = chan_pool or [1, 2, 3, 4, "A", "B", "ch1"]
+        # (names that begin / end with letters of "channel" and "_delay", upper and lower case twins)
+        pool = chan_pool or [1, 2, 3, 4, "A", "B", "ch1", "gate", "aux", "left_delay", "Q", "q"]
         chans = r.sample(pool, r.randint(*nch))
         P = r.randint(*npos)
         ops = [{"op": "sq.new", "id": sid}, {"op": "sq.setSR", "id": sid, "v": enc(SR * seq_sr_factor)}]
